@@ -264,9 +264,9 @@ static void packets_child(const void *job, size_t n) {
  * lc1, lost(lc1), new(lc1 at its old / another local address), a new-node notice without a lost one (board moved), a system reset,
  * a report from the interface.  After every event each report of a connected SecAck board has exactly one mirror, addressed to the
  * address the board has NOW, with the reported payload; nothing else is mirrored. */
-enum { RL_REP0, RL_LOST = 4, RL_NEW2, RL_NEW7, RL_MOVE7, RL_MOVE2, RL_RESET, RL_MASTER, RL_LOSTHUB, RL_NEWHUB, RL_N };
-static const char *rl_evname(int ev) { static const char *n[RL_N] = {"occ from lc1", "free from lc1", "multiple8 from lc1", "position from lc1", "lost(lc1)", "new(lc1 local 2)", "new(lc1 local 7)", "new-without-lost(lc1 local 7)", "new-without-lost(lc1 local 2)", "bidib_send_sys_reset", "occ from master", "lost(hub booster2)", "new(hub booster2)"}; return n[ev]; }
-static struct { int lc, present, logpos, counter, hub, hub_present; } RL; static cm_model_t RLM;
+enum { RL_REP0, RL_LOST = 4, RL_NEW2, RL_NEW7, RL_MOVE7, RL_MOVE2, RL_RESET, RL_MASTER, RL_LOSTHUB, RL_NEWHUB, RL_OC1REP, RL_OC1TAKE, RL_N };
+static const char *rl_evname(int ev) { static const char *n[RL_N] = {"occ from lc1", "free from lc1", "multiple8 from lc1", "position from lc1", "lost(lc1)", "new(lc1 local 2)", "new(lc1 local 7)", "new-without-lost(lc1 local 7)", "new-without-lost(lc1 local 2)", "bidib_send_sys_reset", "occ from master", "lost(hub booster2)", "new(hub booster2)", "occ from oc1 (no SecAck)", "oc1 logs in at lc1's last address"}; return n[ev]; }
+static struct { int lc, present, logpos, counter, hub, hub_present, oc, lc_local; uint8_t last_rep[4]; } RL;   /* last_rep: the address the last report came from (part of the state key: a look-up may remember it) */ static cm_model_t RLM;
 static void rl_expect(int node, uint8_t mtype, const uint8_t *d, int dl, const char *what) {
 	int found = 0;
 	for (; RL.logpos < SB.nlog; RL.logpos++) { if (!is_mirror(SB.log[RL.logpos].type)) continue;
@@ -285,7 +285,7 @@ static void rl_report(int node, int r, const char *what) {
 	case 2: d[0] = 0; d[1] = 8; d[2] = (uint8_t) (0x01 | (RL.counter << 1)); dl = 3; type = MSG_BM_MULTIPLE; mt = MSG_BM_MIRROR_MULTIPLE; break;
 	default: d[0] = 0x23; d[1] = 0x01; d[2] = 0; d[3] = 0x34; d[4] = 0x12; dl = 5; type = MSG_BM_POSITION; mt = MSG_BM_MIRROR_POSITION; break;
 	}
-	sb_send(node, type, d, dl); vs_point(); hx_quiesce();
+	sb_send(node, type, d, dl); vs_point(); hx_quiesce(); memcpy(RL.last_rep, SB.n[node].addr, 4);
 	uint8_t *m; while ((m = bidib_read_message())) free(m);
 	rl_expect(node, mt, d, dl, what);
 }
@@ -293,6 +293,14 @@ static int rl_apply(int ev) {
 	const char *what = rl_evname(ev); uint8_t d[9];
 	if (ev < RL_LOST) { if (!RL.present) return 0; rl_report(RL.lc, ev, what); return 1; }
 	if (ev == RL_MASTER) { rl_report(0, 0, what); return 1; }
+	if (ev == RL_OC1REP) {      /* a board without SecAck: never mirrored, wherever it sits and whoever sat there before */
+		uint8_t dd = 0; sb_send(RL.oc, MSG_BM_OCC, &dd, 1); vs_point(); hx_quiesce(); memcpy(RL.last_rep, SB.n[RL.oc].addr, 4); uint8_t *m; while ((m = bidib_read_message())) free(m);
+		rl_expect(-1, 0, NULL, 0, what); return 1; }
+	if (ev == RL_OC1TAKE) {     /* lc1 is gone; oc1 appears at the address lc1 had (moved by hand, announced by the interface) */
+		if (RL.present || SB.n[RL.oc].local == RL.lc_local || SB.nn >= SB_MAXNODES - 1) return 0;
+		SB.n[RL.oc].present = 0; RL.oc = sb_add_node(0, (uint8_t) RL.lc_local, RLM.b[1].uid);
+		d[0] = ++SB.n[0].tab_version; d[1] = (uint8_t) RL.lc_local; memcpy(d + 2, RLM.b[1].uid, 7); sb_send(0, MSG_NODE_NEW, d, 9);
+	} else
 	if (ev == RL_LOSTHUB || ev == RL_NEWHUB) {     /* another interface-class board (no children) leaves / returns: nothing changes for the SecAck boards */
 		int lost = ev == RL_LOSTHUB; if (lost != RL.hub_present) return 0;
 		if (lost) { SB.n[RL.hub].present = 0; RL.hub_present = 0; } else { if (SB.nn >= SB_MAXNODES - 1) return 0; RL.hub = sb_add_node(0, RLM.b[3].local, RLM.b[3].uid); RL.hub_present = 1; }
@@ -313,7 +321,8 @@ static int rl_apply(int ev) {
 		if (move != RL.present) return 0;
 		if (move) { if (SB.n[RL.lc].local == local) return 0; SB.n[RL.lc].present = 0; }
 		if (SB.nn >= SB_MAXNODES - 1) return 0;
-		RL.lc = sb_add_node(0, local, RLM.b[2].uid); RL.present = 1;
+		if (SB.n[RL.oc].present && SB.n[RL.oc].local == local) return 0;
+		RL.lc = sb_add_node(0, local, RLM.b[2].uid); RL.present = 1; RL.lc_local = local;
 		d[0] = ++SB.n[0].tab_version; d[1] = local; memcpy(d + 2, RLM.b[2].uid, 7); sb_send(0, MSG_NODE_NEW, d, 9);
 	}
 	vs_point(); hx_quiesce(); uint8_t *m; while ((m = bidib_read_message())) free(m);
@@ -329,7 +338,7 @@ static void relogin_child(const void *job, size_t n) {
 	if (hx_start_normal(0)) res_infra("normal start failed");
 	hx_quiesce();
 	uint8_t *m; while ((m = bidib_read_message())) free(m); while ((m = bidib_read_error_message())) free(m);
-	memset(&RL, 0, sizeof RL); RL.lc = RLM.b[2].sbnode; RL.present = 1; RL.hub = RLM.b[3].sbnode; RL.hub_present = 1; vs_sleep_us(2500000); hx_quiesce(); RL.logpos = SB.nlog;
+	memset(&RL, 0, sizeof RL); RL.lc = RLM.b[2].sbnode; RL.present = 1; RL.hub = RLM.b[3].sbnode; RL.hub_present = 1; RL.oc = RLM.b[1].sbnode; RL.lc_local = SB.n[RL.lc].local; vs_sleep_us(2500000); hx_quiesce(); RL.logpos = SB.nlog;
 	for (int i = 0; i < len; i++) {
 		if (!rl_apply(ev[i])) { if (i == len - 1) res_printf("N 1\n"); else res_infra("inapplicable event inside a history"); res_finish(); }
 		if (res_nviol() && i < len - 1) res_infra("violation before the last event");
@@ -337,7 +346,7 @@ static void relogin_child(const void *job, size_t n) {
 	}
 	hx_emit_ledger_violations("C19");
 	char dump[300]; t_bidib_node_address_query aq = bidib_get_nodeaddr("lc1");
-	size_t o = (size_t) snprintf(dump, sizeof dump, "h%d m%d p%d l%d c%d a%02x%02x%02x v%d", RL.hub_present, bidib_get_board_connected("master"), RL.present, RL.present ? SB.n[RL.lc].local : 0, bidib_get_board_connected("lc1"), aq.address.top, aq.address.sub, aq.address.subsub, SB.n[0].tab_version);
+	size_t o = (size_t) snprintf(dump, sizeof dump, "r%02x%02x o%d h%d m%d p%d l%d c%d a%02x%02x%02x v%d", RL.last_rep[0], RL.last_rep[1], SB.n[RL.oc].local, RL.hub_present, bidib_get_board_connected("master"), RL.present, RL.present ? SB.n[RL.lc].local : 0, bidib_get_board_connected("lc1"), aq.address.top, aq.address.sub, aq.address.subsub, SB.n[0].tab_version);
 	hx_hash_t h; hx_hash_init(&h); hx_hash_add(&h, dump, o);
 	res_printf("S %llx %llx\n", (unsigned long long) h.a, (unsigned long long) h.b);
 	res_finish();
